@@ -1136,14 +1136,22 @@ func (vc *FuncVC) Generate() (err error) {
 	}
 	vc.processBlocks(rpo, nil)
 	// ghost assertions attached to call sites that do not exist
+	// stale proof-script clauses (the call site or the local is gone): reported as a contract problem; the obligations
+	// that were generated stay (the assertion was a proof step, the assumption an extra fact: without them less is
+	// provable, never more)
+	var staleSites []string
 	for site := range vc.fc.Asserts {
 		if !vc.assertsSeen[site] {
-			return fmt.Errorf("%s: the contract has an assertion before %s but there is no such call site", vc.name, site)
+			staleSites = append(staleSites, site)
 		}
+	}
+	sort.Strings(staleSites)
+	for _, site := range staleSites {
+		vc.Stale = append(vc.Stale, fmt.Sprintf("%s: the contract has an assertion before %s but there is no such call site", vc.name, site))
 	}
 	for n := range vc.fc.LocalAssume {
 		if !vc.localDone[n] {
-			return fmt.Errorf("%s: the contract assumes something about a local %q that is never bound", vc.name, n)
+			vc.Stale = append(vc.Stale, fmt.Sprintf("%s: the contract assumes something about a local %q that is never bound", vc.name, n))
 		}
 	}
 	for w := range vc.fc.Imports {
